@@ -437,7 +437,7 @@ func (pi *PacketInfo) walk(msg []byte, path string, depth int) {
 		}
 		return
 	}
-	if depth > 8 {
+	if depth > 300 {
 		if pi.Err == nil {
 			pi.Err = errors.New("nesting too deep for oracle")
 		}
